@@ -100,6 +100,7 @@ class TradeSpec:
 class MakeTrades(Contract):
     relpath, qual = REL, "Rebalancing.make_trades"
     props = ("C03", "C12", "C13")
+    shards = [[0, 0], [0, 1], [1, 0], [1, 1]]       # measure x fractional
 
     def pre_state(self, I):
         measure = ["weight", "nr-contracts"][I.choice(2)]
